@@ -29,7 +29,7 @@ ASSUMPTIONS = ["nvmon.ref exact reference for vertex positions (uv within 1e-12 
 FLOORS = {'quick': {'topology': 150, 'vertex-on-surface': 1500, 'quads': 100, 'trim-cells': 1000, 'obj': 60, 'off': 60, 'stl-ascii': 60,
                     'stl-binary': 60, 'container': 30},
           'thorough': {'topology': 1500, 'vertex-on-surface': 15000, 'trim-cells': 10000}}
-MANDATORY_TAGS = ['spacing1', 'spacing>=2', 'spacing>=3', 'rational', 'trim:freeform', 'trim:spline', 'trim:reversed', 'trim:clockwise', 'trim:non-unit-domain', 'trim:added-after-tessellation', 'container', 'container:tessellator-replaced',
+MANDATORY_TAGS = ['spacing1', 'spacing>=2', 'spacing>=3', 'rational', 'trim:freeform', 'trim:spline', 'trim:reversed', 'trim:clockwise', 'trim:non-unit-domain', 'trim:added-after-tessellation', 'container', 'container:tessellator-replaced', 'quad:as-surface-tessellator',
                   'quad', 'non-unit-domain', 'export:file']
 TECHNIQUE = ("runtime monitoring: structural + exact-geometric oracle over every tessellation the workload produces (ids, indices, "
              "orientation, exact area cover, edge incidence, Euler characteristic, vertex = surface(uv)), cell-classification oracle "
@@ -384,6 +384,23 @@ def check_plain(case, ctx):
                 ok = ok and abs(ia - ib) + abs(ja - jb) == 1
     ctx.check(ok, 'quads', 'QuadTessellate on a %dx%d grid: cells are not exactly the (nu-1)(nv-1) grid cells with their four corners' % (nu, nv),
               what='quads')
+    # ---- the quad tessellator installed on the surface itself (surf.tessellator = QuadTessellate(); surf.vertices / faces) ------------
+    o2 = G.build(sd)
+    o2.sample_size_u, o2.sample_size_v = nu, nv
+    o2.tessellator = tessellate.QuadTessellate()
+    ctx.tag('quad:as-surface-tessellator')
+    QV2, QF2 = o2.vertices, o2.faces
+    if ctx.check([v.id for v in QV2] == list(range(nu * nv)) and len(QF2) == (nu - 1) * (nv - 1) and
+                 all(len(q.data) == 4 and all(0 <= t < nu * nv for t in q.data) for q in QF2), 'quads/surface-tessellator',
+                 'surface with QuadTessellate: %d vertices / %d quads for a %dx%d grid' % (len(QV2), len(QF2), nu, nv), what='quads'):
+        # each vertex position is the surface evaluated at its stored parameters, which are the sampled grid
+        vertices_on_surface(ctx, S, QV2, dom, sc, rng, 'quads/vertex-off-surface', limit=30)
+        uq = sorted(set(round(v.uv[0], 12) for v in QV2))
+        vq = sorted(set(round(v.uv[1], 12) for v in QV2))
+        ctx.check(len(uq) == nu and len(vq) == nv and abs(uq[0] - dom[0][0]) < 1e-12 and abs(uq[-1] - dom[0][1]) < 1e-9 and
+                  abs(vq[0] - dom[1][0]) < 1e-12 and abs(vq[-1] - dom[1][1]) < 1e-9, 'quads/stored-parameters',
+                  'quad vertices do not store the %dx%d sampled grid over the domain as their parameters (distinct u: %d, distinct v: %d)'
+                  % (nu, nv, len(uq), len(vq)), what='quads')
     # ---- exports ---------------------------------------------------------------------------------------------------------------------
     check_exports(ctx, rng, o, [o], sp, sc, as_file=rng.random() < 0.4)
 
